@@ -31,7 +31,7 @@ EVENT_PROPERTY = {
     "block:mwaitall": "C05", "return": "C05", "end": "C05",
 }
 # which fields of the final summary a property compares
-SUMMARY_KEYS = {"C04": ("res", "st", "err", "loads", "evals"), "C05": ("res", "st", "cyc", "pub"), "C09": ("free",)}
+SUMMARY_KEYS = {"C04": ("res", "st", "err", "loads", "evals", "order"), "C05": ("res", "st", "cyc", "pub"), "C09": ("free",)}
 
 RULE = ("graphs: 17 fixed shapes (single, unknown root, self-loop, chain, duplicate label, 2-cycle through the root, "
         "self-loop below the root, inner cycle, diamond with failing / unknown shared dependency, two dependents on a "
